@@ -13,6 +13,8 @@ func propC01(c *Ctx, r *Report) {
 	// what was fetched decides what is applied: a failed entry download is not mistaken for an empty entry
 	r.rule("C01/fetch-errors", 2, "errors of the parallel entry fetch reach SyncBlock")
 	runErrflow(c, computeEffects(c), r, reachOfSelf(c, "node.multiFetch"), "C01/fetch-errors", false)
+	// a block retried after a rollback, or applied by a restarted process, sees the same inputs: nothing in memory
+	ruleNoCarriedReads(c, newSharedAnalysis(c), r, "C01/no-carried-state", c.RSync, carriedAllowedAverages, "block processing")
 	// process-start dependence of the averaging window (shared with C09)
 	r.rule("C01/window-size", 1, "the incrementally maintained averaging window has the size of a reloaded one")
 	windowSize(c, r, "C01/window-size")
